@@ -203,3 +203,16 @@ class ModProxy(object):
         if name in o:
             return o[name]
         return getattr(self.__dict__['_real'], name)
+
+
+class Sub(object):
+    """mk wrapper that overrides some inputs but keeps the symbolic/concrete mode marker"""
+
+    def __init__(self, mk, fn):
+        self.mk = mk
+        self.fn = fn
+        if hasattr(mk, 'vals'):
+            self.vals = mk.vals
+
+    def __call__(self, name):
+        return self.fn(name)
